@@ -650,6 +650,10 @@ func (e *xstore) taggedRoots() []int {
 // gcPlan decides whether GC can be judged on the current state and which roots
 // gcIndex keeps.  safe=false: the outcome depends on Go's map order or triggers F1.
 func (e *xstore) gcPlan() (roots []int, safe bool) {
+	if !f1Present {
+		// GC always returns; the model is fed the observed survivors, so any outcome can be judged
+		return nil, true
+	}
 	tagged := e.taggedRoots()
 	base := e.closure(tagged)
 	isTagged := map[int]bool{}
@@ -1210,7 +1214,63 @@ func caseFromSeed(part string, seed uint64) {
 		runRaw(g, genRawOps(r, g, 10+r.Intn(run.Scale(40, 80))), origin)
 	case "memory", "oci", "file":
 		genStore(r, part, origin)
+	case "perm":
+		permCases(r, origin)
 	}
+}
+
+// permCases: every permutation of the push order of a small graph, on the raw
+// graph.Memory and on the memory store through its public API.
+func permCases(r *common.Rand, origin string) {
+	o := dag.DefaultOptions()
+	o.MinNodes, o.MaxNodes = 3, run.Scale(4, 6)
+	o.Foreign = false
+	g := dag.Random(r, o)
+	var ids []int
+	for _, n := range g.Nodes {
+		ids = append(ids, n.ID)
+	}
+	var pre []string
+	for _, n := range g.Nodes {
+		if n.IsManifest() {
+			pre = append(pre, fmt.Sprintf("+%d", n.ID))
+		}
+	}
+	var sweep []string
+	for _, n := range g.Nodes {
+		sweep = append(sweep, fmt.Sprintf("Q%d", n.ID), fmt.Sprintf("E%d", n.ID))
+	}
+	var rec func(k int)
+	perm := append([]int(nil), ids...)
+	rec = func(k int) {
+		if k == len(perm) {
+			ops := append([]string(nil), pre...)
+			for _, i := range perm {
+				ops = append(ops, fmt.Sprintf("I%d", i))
+			}
+			runRaw(g, append(ops, sweep...), origin)
+			run.Count("perm-raw")
+			if len(perm) <= 5 {
+				e := &xstore{u: newUniverse(g), kind: "memory", id: run.NewID()}
+				if err := e.open(); err != nil {
+					panic(err)
+				}
+				for _, i := range perm {
+					e.do(fmt.Sprintf("push:%d", i))
+				}
+				e.finish(origin)
+				e.close()
+				run.Count("perm-memory-store")
+			}
+			return
+		}
+		for i := k; i < len(perm); i++ {
+			perm[k], perm[i] = perm[i], perm[k]
+			rec(k + 1)
+			perm[k], perm[i] = perm[i], perm[k]
+		}
+	}
+	rec(0)
 }
 
 func main() {
@@ -1231,6 +1291,9 @@ func main() {
 	nStore := run.Scale(360, 9000)
 	for i := 0; i < nRaw; i++ {
 		caseFromSeed("raw", run.Rand.U64())
+	}
+	for i := 0; i < run.Scale(4, 25); i++ {
+		caseFromSeed("perm", run.Rand.U64())
 	}
 	kinds := []string{"oci", "oci", "oci", "oci", "memory", "file"}
 	for i := 0; i < nStore; i++ {
